@@ -790,6 +790,66 @@ impl Stream for GiantLists
 	}
 }
 
+/// deep nesting and long operator chains, up to the stated input size: the
+/// front end has to cope without running out of stack
+struct DeepExpressions;
+const DEEP_KINDS: &[&str] = &["binary chain", "parentheses", "unary chain", "blocks", "ifs", "array literals", "calls", "indices", "array types", "pointer types", "else-if chain", "member chain"];
+const DEEP_SIZES: &[usize] = &[100, 1000, 3000, 8000, 20_000, 40_000];
+impl Stream for DeepExpressions
+{
+	fn name(&self) -> String
+	{
+		"deep-expressions".into()
+	}
+	fn count(&self, _tier: Tier) -> u64
+	{
+		(DEEP_KINDS.len() * DEEP_SIZES.len()) as u64
+	}
+	fn exhaustive(&self) -> bool
+	{
+		true
+	}
+	fn run(&self, idx: u64, _c: &mut Choices, ctx: &RunCtx) -> CaseOut
+	{
+		let mut out = CaseOut::default();
+		let kind = DEEP_KINDS[idx as usize / DEEP_SIZES.len()];
+		let n = DEEP_SIZES[idx as usize % DEEP_SIZES.len()];
+		// up to 1000 levels must work; beyond that the recorded finding applies
+		note_case_class(&format!("{}, {}", kind, if n >= 3000 { "thousands deep" } else { "up to 1000 deep" }));
+		let rep = |s: &str| s.repeat(n);
+		let src = match kind
+		{
+			"binary chain" => format!("const P: i32 = {}a;\n", rep("a + ")),
+			"parentheses" => format!("const P: i32 = {}a{};\n", rep("("), rep(")")),
+			"unary chain" => format!("const P: i32 = {}a;\n", rep("- ")),
+			"blocks" => format!("fn f()\n{{\n{}{}}}\n", rep("{\n"), rep("}\n")),
+			"ifs" => format!("fn f()\n{{\n{}{}}}\n", rep("if a == b\n{\n"), rep("}\n")),
+			"array literals" => format!("const P: i32 = {}a{};\n", rep("["), rep("]")),
+			"calls" => format!("const P: i32 = {}a{};\n", rep("f("), rep(")")),
+			"indices" => format!("const P: i32 = {}a{};\n", rep("a["), rep("]")),
+			"array types" => format!("const P: {}i32 = a;\n", rep("[1]")),
+			"pointer types" => format!("fn f(x: {}i32);\n", rep("&")),
+			"else-if chain" => format!("fn f()\n{{\n\tif a == b\n\t{{\n\t}}\n{}}}\n", rep("\telse if a == b\n\t{\n\t}\n")),
+			_ => format!("const P: i32 = a{};\n", rep(".m")),
+		};
+		if src.len() > 262_144
+		{
+			out.discarded = Some("beyond 256 KiB".into());
+			return out;
+		}
+		let r = run_delta(src.as_bytes(), true);
+		classify(&r, &mut out);
+		out.class(format!("deep:{}", kind));
+		out.key = idx;
+		out.nontrivial = n >= 1000;
+		if ctx.want_sample && n == 100
+		{
+			out.sample = Some(json!({"kind": kind, "repetitions": n, "source_head": src.chars().take(120).collect::<String>()}));
+		}
+		out
+	}
+}
+
 impl Check for C15
 {
 	fn id(&self) -> &'static str
@@ -798,7 +858,7 @@ impl Check for C15
 	}
 	fn rule(&self) -> String
 	{
-		"streams: random bytes (incl. invalid UTF-8, NUL); byte-mutated repository corpus (357 .pn files; bit flips, inserts, deletes, splices, truncation, UTF-8 inserts, window duplication, CRLF); token soup of valid lexemes (every 4th with a planted invalid lexeme); exhaustive token sequences of length <= 4 (quick) / <= 5 (thorough) over a 20-token alphabet at top level and inside a function body; identifier-dense well-formed programs from 1 to 72k tokens (densest parser productions, straddling the 65536-token heuristic); giant single lists (1k-30k statements / arguments / members / parameters / elements / declarations). Oracle: lex -> errors -> parse -> errors -> build_header -> all three XML dumps fully iterated inside an isolated worker (any panic/abort/overflow = failure by site); published token vector == independent reference lexer; valid-by-construction modules accepted with no diagnostics, or exactly E103 above the token heuristic; planted invalid lexeme => rejected. Non-trivial: >= 8 tokens (byte streams), >= 3 tokens (exhaustive), always for generated valid programs; distinct by byte hash.".into()
+		"streams: random bytes (incl. invalid UTF-8, NUL); byte-mutated repository corpus (357 .pn files; bit flips, inserts, deletes, splices, truncation, UTF-8 inserts, window duplication, CRLF); token soup of valid lexemes (every 4th with a planted invalid lexeme); exhaustive token sequences of length <= 4 (quick) / <= 5 (thorough) over a 20-token alphabet at top level and inside a function body; identifier-dense well-formed programs from 1 to 72k tokens (densest parser productions, straddling the 65536-token heuristic); giant single lists (1k-30k statements / arguments / members / parameters / elements / declarations); twelve recursive constructs (operator chains, parentheses, unary chains, blocks, ifs, else-if chains, array literals, calls, indices, array and pointer types, member chains) repeated 100 - 40 000 times. Oracle: lex -> errors -> parse -> errors -> build_header -> all three XML dumps fully iterated inside an isolated worker (any panic/abort/overflow = failure by site); published token vector == independent reference lexer; valid-by-construction modules accepted with no diagnostics, or exactly E103 above the token heuristic; planted invalid lexeme => rejected. Non-trivial: >= 8 tokens (byte streams), >= 3 tokens (exhaustive), always for generated valid programs; distinct by byte hash.".into()
 	}
 	fn assumptions(&self) -> Vec<String>
 	{
@@ -841,6 +901,7 @@ impl Check for C15
 			Box::new(ExhaustiveTokens),
 			Box::new(DenseValid),
 			Box::new(GiantLists),
+			Box::new(DeepExpressions),
 		]
 	}
 }
